@@ -118,7 +118,7 @@ def run(ctx):
             if fname != 'cache_to_data':
                 k['info'] = {}
             seen[('W', '%s#%d' % (fname, v))] = fp(RG.quiet(f, *a, **k))
-    nh = 150 if quick else len(hists)
+    nh = 150 if quick else min(len(hists), 1500)
     order = rng.permutation(len(hists))[:nh]
     for hi in order:
         h = hists[hi]
